@@ -15,13 +15,13 @@ LEVEL = "model_checking"
 TECHNIQUE = "explicit-state BFS over real objects with a reference flow-control model"
 RULE = ("BFS over histories of {write(1|3|5), writeExtended(type 1|2, 1|3 bytes), loseConnection, deliver head A->B, "
         "deliver head B->A, receiver adjustWindow(1|2)} on a real SSHConnection pair with one open channel, for every "
-        "receiver window in {1,2,3,4} x receiver max packet in {1,3}; after every transition the messages the sender "
+        "receiver window in {1,2,3,4,5} x receiver max packet in {1,2,3}; after every transition the messages the sender "
         "emitted are checked against a reference window (initial window + adjustments delivered - bytes sent) and the "
         "peer's max packet, streams against what was written, CLOSE against unsent data, and every delivered conforming "
         "data message must reach the receiving channel. non-trivial = distinct canonical states in which data was "
         "buffered, split into several packets, a window adjustment was in flight or a close was pending")
-BOUNDS = {"quick": "depth 9, <= 3 writes, <= 2 manual adjustments, 1 close",
-          "thorough": "depth 12, <= 4 writes, <= 2 manual adjustments, 1 close"}
+BOUNDS = {"quick": "depth 8, <= 3 writes, <= 1 manual adjustment (2 for receiver window 1), 1 close",
+          "thorough": "depth 10, <= 4 writes, <= 2 manual adjustments, 1 close"}
 ASSUMPTIONS = [
     "the SSH transport below the connection service is replaced by a FIFO per direction (in-order, loss-free delivery, "
     "as SSHTransportBase provides - C35)",
@@ -33,11 +33,11 @@ ASSUMPTIONS = [
     "granted so far covers everything written; a receiver window of 1 never replenishes on its own "
     "(left < size // 2 is never true) - that stall is accepted, the manual adjustWindow event provides grants there",
 ]
-MIN = {"quick": {"states": 20000, "nontrivial": 10000, "outcomes": 8},
-       "thorough": {"states": 100000, "nontrivial": 50000, "outcomes": 8}}
+MIN = {"quick": {"states": 100000, "nontrivial": 50000, "outcomes": 5},
+       "thorough": {"states": 100000, "nontrivial": 50000, "outcomes": 5}}
 
-WINDOWS = [1, 2, 3, 4]
-MAXPACKETS = [1, 3]
+WINDOWS = [1, 2, 3, 4, 5]
+MAXPACKETS = [1, 2, 3]
 WRITE_EVENTS = [("w", 1), ("w", 3), ("w", 5), ("x", 1, 1), ("x", 1, 3), ("x", 2, 1), ("x", 2, 3)]
 ADJ_EVENTS = [("adj", 1), ("adj", 2)]
 
@@ -365,34 +365,22 @@ def canon(st):
     )
 
 
-def limits(tier):
-    return {"writes": 3, "adj": 2, "depth": 9} if tier == "quick" else {"writes": 4, "adj": 2, "depth": 12}
-
-
-def first_events(lim):
-    return list(WRITE_EVENTS) + [("close",)] + list(ADJ_EVENTS)
+def limits(tier, win=1):
+    # manual adjustWindow events: 2 where the receiver never replenishes on its own (window 1), else 1 in quick
+    if tier == "quick":
+        return {"writes": 3, "adj": 2 if win == 1 else 1, "depth": 8}
+    return {"writes": 4, "adj": 2, "depth": 10}
 
 
 def shards(tier, seed):
-    lim = limits(tier)
-    out = []
-    for w in WINDOWS:
-        for p in MAXPACKETS:
-            for ev in first_events(lim):
-                out.append([w, p, list(ev)])
-    return out
+    # one shard per configuration: the whole search of a configuration shares one visited set
+    return [[w, p] for w in WINDOWS for p in MAXPACKETS]
 
 
 def run_shard(shard, tier, seed):
-    w, p, first = shard
-    first = tuple(first)
-    lim = limits(tier)
+    w, p = shard
+    lim = limits(tier, w)
     stats = Stats()
-
-    def initial():
-        st = St(w, p, lim)
-        apply(st, first)
-        return st
 
     def on_state(st, hist):
         if st.flags:
@@ -404,10 +392,7 @@ def run_shard(shard, tier, seed):
         if st.granted > st.win:
             stats.outcome("window-replenished")
 
-    res = bfs(initial, apply, enabled, canon, invariant, lim["depth"] - 1, on_state=on_state)
-    # histories are relative to the first event: make witnesses self-contained
-    res.violations = [(s, d, [list(first)] + [list(e) for e in h]) for s, d, h in res.violations]
-    res.samples = [[list(first)] + [list(e) for e in h] for h in res.samples]
+    res = bfs(lambda: St(w, p, lim), apply, enabled, canon, invariant, lim["depth"], on_state=on_state)
     stats.add_bfs(res, {"config": [w, p], "tier": tier})
     stats.samples = [{"config": [w, p], "history": h} for h in res.samples[:1]]
     return stats
@@ -415,7 +400,7 @@ def run_shard(shard, tier, seed):
 
 def replay(wit):
     w, p = wit["config"]
-    st = St(w, p, limits(wit.get("tier", "quick")))
+    st = St(w, p, limits(wit.get("tier", "quick"), w))
     for ev in wit["history"]:
         apply(st, tuple(ev))
         if st.bad:
